@@ -190,4 +190,48 @@ example : ¬ NoSamePitchOverlap { notes := [exNote 60 0 2, exNote 60 1 3] } ∧
     ¬ NoSamePitchOverlap { notes := [exNote 60 0 2, exNote 60 0 3] } ∧
     ¬ WellFormed { notes := [exNote 60 2 1] } := by decide
 
+/-! ## no tolerance: "while the pedal is down" is decided by the exact order of the times -/
+
+/-- a note that ends before every press of its instrument's pedal — by however little — is not
+held: the specification (and by `sustain_pointwise` the result) leaves its end alone.  There is no
+time resolution below which "just before the press" counts as "at the press". -/
+theorem heldEnd_press_after_end (ctl : Int) (s : NoteSeq) (nt : Note)
+    (h : ∀ c ∈ s.ccs, c.number = ctl → c.instrument = nt.instrument → 64 ≤ c.value →
+      nt.end_ < c.time) :
+    heldEnd ctl s nt = nt.end_ := by
+  unfold heldEnd
+  split
+  · rfl
+  · rename_i hn
+    exfalso; apply hn; right
+    rintro ⟨c, hc, hnum, hinst, hval, hle, _⟩
+    have hlt := h c hc hnum hinst hval
+    exact absurd hle (Rat.not_le.mpr hlt)
+
+theorem sustain_press_after_end_not_held (ctl : Int) (s : NoteSeq) (hq : s.isQuantized = false)
+    (hw : WellFormed s) (ho : NoSamePitchOverlap s) :
+    ∃ r, applySustain ctl s = .ok r ∧ r.notes.length = s.notes.length ∧
+      ∀ (i : Nat) (hi : i < s.notes.length) (hi' : i < r.notes.length),
+        (∀ c ∈ s.ccs, c.number = ctl → c.instrument = s.notes[i].instrument → 64 ≤ c.value →
+          s.notes[i].end_ < c.time) →
+        r.notes[i] = s.notes[i] := by
+  obtain ⟨r, h1, h2, h3⟩ := sustain_pointwise ctl s hq hw ho
+  refine ⟨r, h1, h2, ?_⟩
+  intro i hi hi' h
+  rw [h3 i hi hi', heldEnd_press_after_end ctl s _ h]
+  rfl
+
+/-- non-vacuity, with times 3·10⁻⁷ apart: the first note ends at 1, the pedal goes down at
+1 + 3·10⁻⁷ (not held); the pedal of instrument 2 is released at 2 and pressed again 3·10⁻⁷ later
+(down afterwards: the note ending at 3 is held to the release at 5) -/
+def ex4 : NoteSeq :=
+  { notes := [exNote 60 (1/2) 1, exNote 64 (3/2) 2, exNote 50 (1/4) (3/4) 2, exNote 55 (5/2) 3 2],
+    ccs := [exCC (1 + 3/10000000) 127, exCC 3 0, exCC 0 90 2, exCC 2 10 2, exCC (2 + 3/10000000) 90 2,
+            exCC 5 0 2],
+    totalTime := 6 }
+example : ex4.isQuantized = false ∧ WellFormed ex4 ∧ NoSamePitchOverlap ex4 ∧
+    (∀ c ∈ ex4.ccs, c.number = 64 → c.instrument = (ex4.notes[0]).instrument → 64 ≤ c.value →
+      (ex4.notes[0]).end_ < c.time) := by decide +kernel
+example : ex4.notes.map (heldEnd 64 ex4) = [1, 3, 2, 5] := by decide +kernel
+
 end NSV.C14
